@@ -1,4 +1,7 @@
+#[cfg(not(metrics_verif))]
 use std::sync::{Arc, Weak};
+#[cfg(metrics_verif)]
+use metrics::verif::sync::{Arc, Weak};
 
 use metrics::{
     Counter, Gauge, Histogram, Key, KeyName, Metadata, Recorder, SetRecorderError, SharedString,
@@ -68,6 +71,13 @@ impl<R: Recorder + Sync + Send + 'static> RecoverableRecorder<R> {
         let wrapped = WeakRecorder::from_arc(&self.handle);
 
         (wrapped, RecoveryHandle { handle: self.handle })
+    }
+
+    /// Verification hook: builds the wrapper and the recovery handle without installing the
+    /// wrapper as the global recorder.
+    #[cfg(metrics_verif)]
+    pub fn verif_build(self) -> (impl Recorder, RecoveryHandle<R>) {
+        self.build()
     }
 
     /// Installs the wrapped recorder globally, returning a handle to recover it.
